@@ -6,8 +6,10 @@ designate (buffer, offset, len)); theorems in coq/C11/Properties.v; corresponden
 the real headers of the working tree on the same histories, under ASan+UBSan, for three element types.
 Decision rule on a difference: the independent value-level reference `Ref` below (no heap, no reference
 counts: owning arrays hold their own values, views name their source) judges the implementation's output."""
-import itertools, os, re
+import itertools, json, os, re, sys
 import vlib
+sys.path.insert(0, os.path.dirname(os.path.abspath(__file__)))
+import factgen  # noqa: E402
 
 NSLOT, NSRC = 4, 3
 TYPES = [("uint8_t", "u8"), ("int", "i32"), ("struct24", "s24")]
@@ -343,8 +345,41 @@ def asan_summary(err):
     return keep[:14]
 
 
+def regenerate_facts(ctx):
+    """(re)generate coq/C11/gen/Facts.v from the working tree; on extractor failure write an all-unknown table"""
+    gen_v = os.path.join(ctx.coqdir, "gen", "Facts.v")
+    facts_js = os.path.join(ctx.build, "facts.json")
+    try:
+        factgen.main(["--repo", ctx.repo, "--inc", ctx.include_dir(), "--out", gen_v, "--json", facts_js,
+                      "--work", os.path.join(ctx.build, "ast")])
+        facts = json.load(open(facts_js))
+    except Exception as ex:
+        ctx.broken.append("fact extraction failed: %r" % (ex,))
+        facts = {"special": {}, "table": {}, "exprs": {}, "notes": [repr(ex)]}
+        os.makedirs(os.path.dirname(gen_v), exist_ok=True)
+        open(gen_v, "w").write(factgen.coq_text(*factgen.unknown_facts()))
+    return facts
+
+
+def facts_diagnosis(ctx):
+    """which configurations / facts fail (vm_compute over the generated table), for the log and the evidence"""
+    v = os.path.join(ctx.build, "FactsDiag.v")
+    open(v, "w").write("From C11 Require Import Model FactsModel FactsCheck.\nFrom C11.gen Require Import Facts.\n"
+                       "Eval vm_compute in (check_special gen_special, check_exprs gen_exprs, failing_configs gen_table).\n")
+    rc, out = vlib.sh(["coqc"] + vlib.coqproject_args(ctx.coqdir) + [v], cwd=ctx.build, timeout=300)
+    return " ".join(out.split())[:1500]
+
+
 def run(ctx):
-    ctx.coq_check(("Properties.v",))
+    facts = regenerate_facts(ctx)
+    res = ctx.coq_check(("Properties.v", "PropertiesFacts.v"))
+    facts_ok = bool(res.get("facts_match"))
+    ctx.cov["source_facts"] = {"special": facts.get("special"), "table": facts.get("table"), "exprs": facts.get("exprs"),
+                               "notes": facts.get("notes"), "facts_match": facts_ok}
+    if not facts_ok:
+        diag = facts_diagnosis(ctx)
+        ctx.cov["source_facts"]["diagnosis(check_special, check_exprs, failing member/operation pairs)"] = diag
+        ctx.log("fact table of this tree does NOT match Model.v: " + diag[:600])
     model = ctx.extract(snippets=["conv_N.ml", "conv_nat.ml"])
     exe = ctx.cxx(["harness.cpp"], "harness", sanitize="asan")
     if not model or not exe:
@@ -483,7 +518,11 @@ def run(ctx):
                 ctx.broken.append("correspondence C11 model vs %s on case %r: impl=%r model=%r (impl satisfies the reference)"
                                   % (label, cases[i], il[-200:], mlines[i][-200:]))
     ctx.cov["mismatches"] = nmism
-    ctx.trusted += ["correspondence harness harness/C11/harness.cpp (g++ -std=c++11 -O1, ASan+UBSan, libstdc++) + generators and the value-level "
+    ctx.trusted += ["fact extractor props/C11/factgen.py over `clang++ -std=c++11 -fsyntax-only -Xclang -ast-dump=json "
+                    "-Xclang -ast-dump-filter=rkcommon::utility` of a TU instantiating the six wrappers (classifies mem-initialisers and "
+                    "statements into the micro-operations / terms of coq/C11/FactsModel.v; anything unrecognised becomes "
+                    "MUnknown / TUnknown and fails PropertiesFacts.facts_match); the reflective check runs on 80 configurations and a grid",
+                    "correspondence harness harness/C11/harness.cpp (g++ -std=c++11 -O1, ASan+UBSan, libstdc++) + generators and the value-level "
                     "reference `Ref` in props/C11/check.py; the harness recognises legitimately dangling ArrayViews by (source, generation) "
                     "bookkeeping and does not read through them",
                     "modelled, not verified: std::vector (allocation on copy/range construction, resize growth policy, shrink_to_fit), "
@@ -495,4 +534,4 @@ def run(ctx):
                         "is skipped on both sides",
                         "a non-owning ArrayView is allowed to dangle once its source container is destroyed or replaced (not a violation)"]
     if ctx.thorough():
-        ctx.coq_thorough_chk(["C11.Properties"])
+        ctx.coq_thorough_chk(["C11.Properties", "C11.PropertiesFacts"])
